@@ -781,6 +781,9 @@ func (in *Interp) loadPtr(p Value) Value {
 		if p == nil {
 			in.throwNilDeref()
 		}
+		if in.frozen != nil {
+			in.noteRead(p)
+		}
 		return load(p)
 	case *SymElemPtr:
 		return in.loadSymElem(p)
